@@ -608,6 +608,159 @@ def s8(prog, ctx, chk):
     chk.floor("S8", n, 8)
 
 
+def s9(prog, chk):
+    """S9 - a conditioning loop that fetched the activity of the samples uses it.  In a function that takes `A = db->getActiveArray()`, every
+    loop over the samples of that data base (`ip < db->getSampleNumber()`) that reads a sample of it tests `A[ip]`: the point-target branch of
+    the final copy of the data onto coinciding targets must skip the masked data like the grid-target branch does, or a masked duplicate
+    (sitting before the active datum) is what the target receives."""
+    def strip(e):
+        while e is not None and e["k"] in ("Cast", "Paren") and e.get("c"):
+            e = e["c"][0]
+        return e
+    n = 0
+    for f in sorted(prog.funcs, key=lambda x: (x.file, x.line)):
+        if f.body is None:
+            continue
+        arrays = {}
+        for x in f.walk():
+            if x["k"] == "VarDecl" and x.get("c") and x["c"][0] is not None:
+                for z in walk(x["c"][0]):
+                    if z["k"] == "MCall" and (z.get("callee") or "").split("::")[-1] == "getActiveArray":
+                        o = call_obj(z)
+                        arrays[show(o) if o is not None and o["k"] != "This" else "this"] = (x["d"], x["n"])
+        if not arrays:
+            continue
+        for L in f.walk():
+            if L["k"] != "For" or len(L["c"]) < 4 or L["c"][1] is None or L["c"][3] is None:
+                continue
+            bound = None
+            for z in walk(L["c"][1]):
+                if z["k"] == "MCall" and (z.get("callee") or "").split("::")[-1] == "getSampleNumber":
+                    o = call_obj(z)
+                    bound = show(o) if o is not None and o["k"] != "This" else "this"
+            if bound not in arrays:
+                continue
+            c = strip(L["c"][1])
+            lv = None
+            for z in walk(c):
+                if z["k"] == "BinOp" and z.get("op") == "<" and strip(z["c"][0]) is not None and strip(z["c"][0])["k"] == "DeclRefExpr":
+                    lv = strip(z["c"][0])
+                    break
+            if lv is None:
+                continue
+            reads = [z for z in walk(L["c"][3]) if z["k"] == "MCall" and call_obj(z) is not None and show(call_obj(z)) == bound and
+                     any(a is not None and strip(a) is not None and strip(a)["k"] == "DeclRefExpr" and strip(a).get("d") == lv["d"] for a in call_args(z))]
+            if not reads:
+                continue
+            n += 1
+            d_arr, n_arr = arrays[bound]
+            gated = any(z["k"] in ("Index", "OpCall") and z.get("c") and strip(z["c"][0]) is not None and strip(z["c"][0]).get("d") == d_arr and
+                        strip(z["c"][-1]) is not None and strip(z["c"][-1]).get("d") == lv["d"] for y in walk(L["c"][3]) if y["k"] == "If" and y["c"][-3] is not None
+                        for z in walk(y["c"][-3]))
+            chk.analysed(f)
+            chk.ob("S9", "%s: the loop over the samples of `%s` tests `%s[%s]`" % (f.name, bound, n_arr, lv["n"]), f.loc(L), gated,
+                   detail=None if gated else "the loop reads `%s` for every rank without consulting the activity array the function fetched: a masked "
+                   "sample takes part in the conditioning" % show(reads[0])[:50], key="S9|%s|%s|%d" % (f.name, bound, n))
+    chk.floor("S9", n, 6)
+
+
+def s10(prog, chk):
+    """S10 - the two bounds of an interval are standardised alike.  Before a bounded Gaussian draw the sampler turns the bounds into bounds
+    for the standard normal: `if (!FFFF(vmin)) vmin = (vmin - m) / s; if (!FFFF(vmax)) vmax = (vmax - m) / s;`.  Both statements must use the
+    same mean and the same standard deviation, or the value drawn (and scaled back with `s`) can lie beyond the upper bound."""
+    def strip(e):
+        while e is not None and e["k"] in ("Cast", "Paren") and e.get("c"):
+            e = e["c"][0]
+        return e
+
+    def form(s_):
+        if s_["k"] != "If" or s_["c"][-1] is not None or s_["c"][-2] is None or s_["c"][-3] is None:
+            return None
+        t = s_["c"][-2]
+        if t["k"] == "Block":
+            cs = [c for c in t.get("c") or [] if c]
+            if len(cs) != 1:
+                return None
+            t = cs[0]
+        t = strip(t)
+        if t["k"] != "Assign" or t.get("op") != "=" or not any(z["k"] == "Call" and (z.get("callee") or "") == "FFFF" for z in walk(s_["c"][-3])):
+            return None
+        r = strip(t["c"][1])
+        if r is None or r["k"] != "BinOp" or r.get("op") != "/":
+            return None
+        num = strip(r["c"][0])
+        if num is None or num["k"] != "BinOp" or num.get("op") != "-":
+            return None
+        return show(strip(t["c"][0])), show(strip(num["c"][1])), show(strip(r["c"][1])), t
+    n = 0
+    for f in sorted(prog.funcs, key=lambda x: (x.file, x.line)):
+        if f.body is None:
+            continue
+        for B in f.walk():
+            if B["k"] != "Block":
+                continue
+            st = [s_ for s_ in B.get("c") or [] if s_]
+            for a, b in zip(st, st[1:]):
+                fa, fb = form(a), form(b)
+                if not fa or not fb or fa[0] == fb[0]:
+                    continue
+                n += 1
+                ok = fa[1:3] == fb[1:3]
+                chk.analysed(f)
+                chk.ob("S10", "%s: `%s` and `%s` are standardised with the same mean and deviation" % (f.name, fa[0], fb[0]), f.loc(fb[3]), ok,
+                       detail=None if ok else "`%s` uses (%s, %s) and `%s` uses (%s, %s): the interval handed to the bounded draw is not the one of the "
+                       "constraint" % (fa[0], fa[1], fa[2], fb[0], fb[1], fb[2]), key="S10|%s|%s" % (f.name, fb[0]))
+    chk.floor("S10", n, 3)
+
+
+def s11(prog, chk, classes):
+    """S11 - a simulator starts each calculation from scratch.  In the classes that store a seed, a scalar member that the calculation only
+    ever increases (`m += x`, `if (m < v) m = v`) is also plainly assigned by a method (not only by the constructor): otherwise the second
+    simulation run on the same object with the same seed works with the extension / counts left by the first one and differs from it."""
+    def strip(e):
+        while e is not None and e["k"] in ("Cast", "Paren") and e.get("c"):
+            e = e["c"][0]
+        return e
+
+    def member(e):
+        e = strip(e)
+        if e is not None and e["k"] == "MemberExpr" and e.get("mk") == "field" and (not e.get("c") or e["c"][0] is None or e["c"][0]["k"] == "This"):
+            return e["n"]
+        return None
+    n = 0
+    for K in classes:
+        meths = [f for f in prog.funcs if f.cls == K and f.body is not None]
+        acc, plain = {}, {}
+        for f in meths:
+            for x in f.walk():
+                if x["k"] in ("Assign", "CompoundAssign") and x.get("op") == "+=" and member(x["c"][0]):
+                    acc.setdefault(member(x["c"][0]), []).append((f, x))
+                if x["k"] == "If" and x["c"][-3] is not None and x["c"][-2] is not None:
+                    c = strip(x["c"][-3])
+                    if c["k"] == "BinOp" and c.get("op") in ("<", ">") and member(c["c"][0]):
+                        m = member(c["c"][0])
+                        for y in walk(x["c"][-2]):
+                            if y["k"] == "Assign" and y.get("op") == "=" and member(y["c"][0]) == m and show(strip(y["c"][1])) == show(strip(c["c"][1])):
+                                acc.setdefault(m, []).append((f, y))
+        for f in meths:
+            if f.kind == "ctor":
+                continue
+            for x in f.walk():
+                if x["k"] == "Assign" and x.get("op") == "=" and member(x["c"][0]) in acc:
+                    m = member(x["c"][0])
+                    if not any(member(z) == m for z in walk(x["c"][1])) and not any(x is y for _, y in acc[m]):
+                        plain.setdefault(m, []).append((f, x))
+        for m, v in sorted(acc.items()):
+            n += 1
+            ok = m in plain
+            f0, x0 = v[0]
+            chk.analysed(f0)
+            chk.ob("S11", "%s::%s, which %s only increases, is reset by a method" % (K, m, f0.short), f0.loc(x0), ok,
+                   detail=None if ok else "no method assigns `%s` afresh: a second simulation on the same object starts from the value the first one left "
+                   "(same inputs, same seed, different result)" % m, key="S11|%s|%s" % (K, m))
+    chk.floor("S11", n, 2)
+
+
 def _ord(f, c):
     """ordinal of the call among the calls of the same callee in f (position-independent key)"""
     same = [x["i"] for x in f.calls() if x.get("callee") == c.get("callee")]
@@ -790,6 +943,9 @@ def main(tier):
     c05_skip.rank_owner_rule(prog, chk, "S6", ("src/Simulation/", "src/Core/simtub", "src/Gibbs/", "src/LithoRule/"), 20)
     s7(prog, chk)
     s8(prog, ctx, chk)
+    s9(prog, chk)
+    s10(prog, chk)
+    s11(prog, chk, seeded_classes)
     for k in sorted(an.assumed):
         chk.assumptions.append("draw %s in %s treated as seeded: %s" % (k[1], k[0], ASSUMED_SEEDED[k]))
     return chk.finish()
